@@ -65,7 +65,7 @@ EmitLong ==
   (Mode = "arg" /\ vSeq = <<>>) =>
     \A w \in LongWords :
       \A txt \in {w, Cp("-true ") \o w, Cp("-uid ") \o w, Cp("-name a -o -size ") \o w \o Cp(" -print"), Cp("-perm ") \o w, Cp("( -type ") \o w \o Cp(" )"),
-                   Cp("-threads ") \o w, Cp("-mtime ") \o w, Cp("/") \o w} :
+                   Cp("-threads ") \o w, Cp("-mtime ") \o w, Cp("/") \o w, Cp("-printf %z") \o w, Cp("-fprintf out %z,%p,") \o w \o Cp(" -print")} :
         PrintT(ToJson([i |-> txt, e |-> ParseText(txt), tag |-> "C18"]))
 \* coverage sanity: every emitted case of mode "arg" with a bad word IS a rejection whose facts are
 \* attributable (otherwise the check would be vacuous for that keyword)
